@@ -121,34 +121,57 @@ theorem sized_upd {M : Meta} {m : FMap} (h : sized M m) {w : Nat × Bytes} (hw :
 theorem sized_empty (M : Meta) : sized M FMap.empty := by
   intro b v h; simp [FMap.empty] at h
 
-/-- one write on the canonical payload of a map gives the canonical payload of the updated map -/
-theorem writeOption_canonical {M : Meta} (hwf : M.wf) {m : FMap} (hm : sized M m) (f : Nat) (v : Bytes)
-    (hw : validWrite M (f, v)) :
-    writeOption M (canonical M m) f v = .ok (canonical M (upd m f v)) := by
+theorem Frame.nil_ok (M : Meta) : Frame.nil.ok M := by
+  refine ⟨by simp [Frame.nil], fun c _ => by simp [Frame.nil], by simp [Frame.nil], by simp [Frame.nil, Frame.k], ?_, ?_⟩
+  · intro j hj; simp [Frame.nil, Frame.k] at hj
+  · intro h; simp [Frame.nil, Frame.k] at h
+
+theorem Frame.nil_inert (M : Meta) : Frame.nil.inert M := by
+  intro h; simp [Frame.nil, Frame.k] at h
+
+/-- one write of a field the first present word already has: overwritten in place, whatever follows -/
+theorem writeOption_layout_present {M : Meta} (hwf : M.wf) {F : Frame} (hF : F.ok M) {m : FMap} (hm : sized M m)
+    (f : Nat) (v old : Bytes) (hw : validWrite M (f, v)) (hmf : m f = some old) :
+    writeOption M (layL M F (fieldList M m)) f v = .ok (layL M F (fieldList M (upd m f v))) := by
   obtain ⟨hf, hv⟩ := hw
   simp only at hf hv
-  have hso := fieldList_sorted M (upd m f v)
-  have hsz := fieldList_sized (sized_upd hm (w := (f, v)) ⟨hf, hv⟩)
-  simp only at hso hsz
-  unfold canonical
-  rw [fieldList_upd M m f v hf] at hso hsz ⊢
-  rw [fieldList_split M m f hf]
+  rw [fieldList_upd M m f v hf, fieldList_split M m f hf]
+  simp only [optL, hmf, List.singleton_append]
+  have hold := (hm f old hmf).2
+  have hso' : Sorted (fieldsFrom m f 0 ++ (f, old) :: fieldsFrom m (M.max - f - 1) (f + 1)) := by
+    have := fieldList_sorted M m
+    rw [fieldList_split M m f hf] at this
+    simpa [optL, hmf] using this
+  have hsz' : Sized M (fieldsFrom m f 0 ++ (f, old) :: fieldsFrom m (M.max - f - 1) (f + 1)) := by
+    have := fieldList_sized hm
+    rw [fieldList_split M m f hf] at this
+    simpa [optL, hmf] using this
+  exact writeOption_overwrite hwf hF _ _ f old v hso' hsz' (by omega)
+
+/-- one write on the well-aligned header of a map (frame `F`: present-word chain whose last word announces no table
+    field, foreign bytes) gives the header of the updated map with the same frame -/
+theorem writeOption_layout {M : Meta} (hwf : M.wf) (hla : M.lowAlign) {F : Frame} (hF : F.ok M) (hin : F.inert M)
+    {m : FMap} (hm : sized M m) (f : Nat) (v : Bytes) (hw : validWrite M (f, v)) :
+    writeOption M (layL M F (fieldList M m)) f v = .ok (layL M F (fieldList M (upd m f v))) := by
   cases hmf : m f with
+  | some old => exact writeOption_layout_present hwf hF hm f v old hw hmf
   | none =>
+    obtain ⟨hf, hv⟩ := hw
+    simp only at hf hv
+    have hso := fieldList_sorted M (upd m f v)
+    have hsz := fieldList_sized (sized_upd hm (w := (f, v)) ⟨hf, hv⟩)
+    simp only at hso hsz
+    rw [fieldList_upd M m f v hf] at hso hsz ⊢
+    rw [fieldList_split M m f hf]
     simp only [optL, hmf, List.nil_append]
-    exact writeOption_insert hwf _ _ f v hso hsz
-  | some old =>
-    simp only [optL, hmf, List.singleton_append]
-    have hold := (hm f old hmf).2
-    have hso' : Sorted (fieldsFrom m f 0 ++ (f, old) :: fieldsFrom m (M.max - f - 1) (f + 1)) := by
-      have := fieldList_sorted M m
-      rw [fieldList_split M m f hf] at this
-      simpa [optL, hmf] using this
-    have hsz' : Sized M (fieldsFrom m f 0 ++ (f, old) :: fieldsFrom m (M.max - f - 1) (f + 1)) := by
-      have := fieldList_sized hm
-      rw [fieldList_split M m f hf] at this
-      simpa [optL, hmf] using this
-    exact writeOption_overwrite hwf _ _ f old v hso' hsz' (by omega)
+    exact writeOption_insert hwf hla hF hin _ _ f v hso hsz
+
+/-- one write on the canonical payload of a map gives the canonical payload of the updated map -/
+theorem writeOption_canonical {M : Meta} (hwf : M.wf) (hla : M.lowAlign) {m : FMap} (hm : sized M m) (f : Nat) (v : Bytes)
+    (hw : validWrite M (f, v)) :
+    writeOption M (canonical M m) f v = .ok (canonical M (upd m f v)) := by
+  have := writeOption_layout hwf hla (Frame.nil_ok M) (Frame.nil_inert M) hm f v hw
+  simpa [layL_nil, canonical] using this
 
 theorem sized_lastWrite {M : Meta} : ∀ (ws : List (Nat × Bytes)) {m : FMap}, sized M m → (∀ w ∈ ws, validWrite M w) →
     sized M (lastWrite m ws) := by
@@ -160,11 +183,12 @@ theorem sized_lastWrite {M : Meta} : ∀ (ws : List (Nat × Bytes)) {m : FMap}, 
     simp only [lastWrite, List.foldl_cons]
     exact ih (sized_upd h (hw w (List.mem_cons_self ..))) (fun x hx => hw x (List.mem_cons_of_mem _ hx))
 
-/-- any finite sequence of valid writes -/
-theorem applyWrites_canonical {M : Meta} (hwf : M.wf) : ∀ (ws : List (Nat × Bytes)) (m : FMap) (ver pad : Nat),
+/-- any finite sequence of valid writes on a well-aligned header -/
+theorem applyWrites_layout {M : Meta} (hwf : M.wf) (hla : M.lowAlign) {F : Frame} (hF : F.ok M) (hin : F.inert M) :
+    ∀ (ws : List (Nat × Bytes)) (m : FMap) (ver pad : Nat),
     sized M m → (∀ w ∈ ws, validWrite M w) →
-    applyWrites M ws { version := ver, pad := pad, payload := canonical M m }
-      = .ok { version := ver, pad := pad, payload := canonical M (lastWrite m ws) } := by
+    applyWrites M ws { version := ver, pad := pad, payload := layL M F (fieldList M m) }
+      = .ok { version := ver, pad := pad, payload := layL M F (fieldList M (lastWrite m ws)) } := by
   intro ws
   induction ws with
   | nil => intro m ver pad _ _; simp [applyWrites, lastWrite]
@@ -172,8 +196,17 @@ theorem applyWrites_canonical {M : Meta} (hwf : M.wf) : ∀ (ws : List (Nat × B
     intro m ver pad hm hw
     obtain ⟨b, d⟩ := w
     have hwv := hw (b, d) (List.mem_cons_self ..)
-    simp only [applyWrites, addOption, writeOption_canonical hwf hm b d hwv]
+    simp only [applyWrites, addOption, writeOption_layout hwf hla hF hin hm b d hwv]
     rw [ih (upd m b d) ver pad (sized_upd hm hwv) (fun x hx => hw x (List.mem_cons_of_mem _ hx))]
     simp [lastWrite]
+
+/-- any finite sequence of valid writes -/
+theorem applyWrites_canonical {M : Meta} (hwf : M.wf) (hla : M.lowAlign) : ∀ (ws : List (Nat × Bytes)) (m : FMap) (ver pad : Nat),
+    sized M m → (∀ w ∈ ws, validWrite M w) →
+    applyWrites M ws { version := ver, pad := pad, payload := canonical M m }
+      = .ok { version := ver, pad := pad, payload := canonical M (lastWrite m ws) } := by
+  intro ws m ver pad hm hw
+  have := applyWrites_layout hwf hla (Frame.nil_ok M) (Frame.nil_inert M) ws m ver pad hm hw
+  simpa [layL_nil, canonical] using this
 
 end Tins.RT
